@@ -157,4 +157,48 @@ def chk_case(case, note):
     return None
 
 
-LEGS = [Leg("demodulate", chk_case, strategy=s_case, quick=5000, thorough=120000, doc="synthetic PPM buffers through RtlReader._process_buffer")]
+# ------------------------------------------------------------------ the IQ path: _read_callback -> amplitude -> _process_buffer -> handle_messages
+class _Collect(rtlreader.RtlReader):
+    def handle_messages(self, messages):
+        self.got.extend(m[0] for m in messages)
+
+
+@st.composite
+def s_iq(draw):
+    return {"items": draw(st.lists(s_frame(), min_size=1, max_size=6)), "lead": draw(gen.uint(400, 3000)), "shape": draw(st.sampled_from(["zero", "uniform", "two-level", "constant"])),
+            "nseed": draw(gen.ubits(32)), "rho": draw(st.one_of(gen.ufloat(0.0, 0.316), st.sampled_from([0.0, 0.3]))), "pseed": draw(gen.ubits(32)),
+            "chunks": draw(st.sampled_from([1, 2, 2, 5]))}
+
+
+def chk_iq(case, note):
+    """complex samples of the right magnitude and arbitrary phase delivered through _read_callback in read-size pieces: the frames come out of
+    handle_messages once the buffer (200 Ki samples) has filled"""
+    import numpy as np
+    buf = {"lead": case["lead"], "items": case["items"], "shape": case["shape"], "nseed": case["nseed"]}
+    nlevel = min(case["rho"] * min_amp(buf), 0.19)
+    amp = synth(buf, nlevel)
+    size = rtlreader.buffer_size
+    if len(amp) > size - 400:
+        return None
+    amp = amp + [noise_sample(case["shape"], nlevel, case["nseed"], len(amp) + k) for k in range(size - len(amp))]
+    phase = np.array([unit(case["pseed"], k) for k in range(0, size, 97)])
+    iq = np.array(amp) * np.exp(2j * np.pi * np.resize(phase, size))
+    rd = object.__new__(_Collect)
+    rd.signal_buffer, rd.debug, rd.noise_floor, rd.got = [], False, 1e6, []
+    pieces = np.array_split(iq, case["chunks"])
+    for k, p in enumerate(pieces):
+        r = call(rd._read_callback, p, None)
+        if r[0] != "ok":
+            return "_read_callback raised %r" % (r[1:],)
+        if k < len(pieces) - 1 and rd.got:
+            return "_read_callback handed over %r before the sample buffer had filled" % rd.got
+    want = [it["msg"] for it in case["items"] if admissible(it["msg"])]
+    if rd.got != want:
+        return "IQ samples through _read_callback: handle_messages received %r, transmitted admissible frames %r (noise %s up to %.4f)" % (rd.got, want, case["shape"], nlevel)
+    note.cls("iq-chunks%d" % case["chunks"])
+    note.nt(True)
+    return None
+
+
+LEGS = [Leg("iq_callback", chk_iq, strategy=s_iq, quick=64, thorough=1200, doc="complex IQ samples through _read_callback (amplitude, buffering up to buffer_size, handle_messages)"),
+        Leg("demodulate", chk_case, strategy=s_case, quick=5000, thorough=120000, doc="synthetic PPM buffers through RtlReader._process_buffer")]
